@@ -128,12 +128,12 @@ theorem realPathParams_perm {ord₁ ord₂ : Entries String String} (hp : ord₁
   intro p _
   rw [reverseMap_perm hp hinj]
 
-/-! ### getGoFile: first match wins -/
+/-! ### getGoFile as it was before fix f3054bd: first match wins -/
 
 theorem getGoFile_unique (ord : List Def) (n f : String)
     (h : ∀ d ∈ ord, (d.isTypeName && d.name = n) = true → d.file = f) :
-    getGoFile ord n = if ord.any (fun d => d.isTypeName && d.name = n) then f else "" := by
-  simp only [getGoFile]
+    getGoFileBefore ord n = if ord.any (fun d => d.isTypeName && d.name = n) then f else "" := by
+  simp only [getGoFileBefore]
   cases hf : ord.find? (fun d => d.isTypeName && d.name = n) with
   | none =>
     have : ord.any (fun d => d.isTypeName && d.name = n) = false := by
@@ -150,7 +150,7 @@ theorem getGoFile_unique (ord : List Def) (n f : String)
 
 theorem getGoFile_perm {ord₁ ord₂ : List Def} (hp : ord₁.Perm ord₂) (n f : String)
     (h : ∀ d ∈ ord₁, (d.isTypeName && d.name = n) = true → d.file = f) :
-    getGoFile ord₁ n = getGoFile ord₂ n := by
+    getGoFileBefore ord₁ n = getGoFileBefore ord₂ n := by
   rw [getGoFile_unique ord₁ n f h, getGoFile_unique ord₂ n f (fun d hd => h d (hp.mem_iff.mpr hd)), hp.any_eq]
 
 /-! ### gather -/
